@@ -104,7 +104,8 @@ def load_findings() -> dict:
 
 def match_finding(findings: dict, prop: str, v: dict) -> dict | None:
     for f in findings.get("findings", []):
-        if f.get("property") != prop or f.get("clause") != v["clause"]:
+        fc = f.get("clause")
+        if f.get("property") != prop or not (v["clause"] == fc or (isinstance(fc, list) and v["clause"] in fc)):
             continue
         if all(v["sig"].get(k) == val for k, val in f.get("match", {}).items()):
             return f
@@ -112,7 +113,8 @@ def match_finding(findings: dict, prop: str, v: dict) -> dict | None:
 
 
 def vclass(v: dict) -> tuple:
-    return (v["clause"], core.jdump(v["sig"].get("kind")))
+    """Violation class: what must stay the same while shrinking, and the grouping key."""
+    return (v["clause"], core.jdump(v["sig"].get("group", v["sig"].get("kind"))))
 
 
 # ---------------------------------------------------------------------------
@@ -208,7 +210,7 @@ def has_class(res: dict, cls: tuple) -> dict | None:
 
 
 def minimise(z: Zygote, scenario: dict, cls: tuple, timeout: int,
-             max_execs: int = 400, max_wall: float = 240.0):
+             max_execs: int = 1500, max_wall: float = 150.0):
     t0 = time.monotonic()
     execs = 0
     steps = 0
@@ -348,7 +350,25 @@ def run_check(prop: str, tier: str) -> int:
         findings = load_findings()
         known_seen: dict[str, dict] = {}
         groups: dict[tuple, dict] = {}
+        cf_findings = [f for f in findings.get("findings", [])
+                       if f.get("property") == prop and f.get("counterfactual")]
+        timeout = m["timeout"][tier]
         for fl in mg["failures"]:
+            # counterfactual attribution: neutralise the trigger of a recorded finding; if the
+            # run then passes, the recorded defect was the only cause; otherwise carry on with the
+            # neutralised scenario so that the recorded defect cannot mask anything else
+            for kf in cf_findings:
+                sc2 = z0.call({"cmd": "counterfactual", "name": kf["counterfactual"],
+                               "scenario": fl["scenario"]}).get("scenario")
+                if sc2 is None or core.jdump(sc2) == core.jdump(fl["scenario"]):
+                    continue
+                r2 = z0.call({"cmd": "exec", "scenario": sc2, "timeout": timeout})
+                if "harness_error" in r2:
+                    continue
+                known_seen.setdefault(kf["id"], {"finding": kf, "count": 0, "example": fl["seed"]})
+                known_seen[kf["id"]]["count"] += 1
+                fl["scenario"], fl["violations"], fl["digest"] = sc2, r2["violations"], r2["digest"]
+                fl["counterfactual_applied"] = kf["id"]
             for v in fl["violations"]:
                 kf = match_finding(findings, prop, v)
                 if kf is not None:
@@ -362,7 +382,6 @@ def run_check(prop: str, tier: str) -> int:
                 f"[{kid}; seen in {ks['count']} violation records, e.g. seed {ks['example']}]"
             )
         replays = []
-        timeout = m["timeout"][tier]
         for cls, g in sorted(groups.items(), key=lambda kv: kv[1]["fl"]["i"]):
             lines.append(f"  class clause={cls[0]} kind={cls[1]} records={g['count']} "
                          f"first_i={g['fl']['i']} :: {g['v']['msg'][:160]}")
@@ -383,7 +402,10 @@ def run_check(prop: str, tier: str) -> int:
             # is the *minimised* case a known finding?  (shrinking may land on one)
             kf = match_finding(findings, prop, vv)
             if kf is not None:
-                lines.append(f"KNOWN-FINDING: property={prop} {kf['what']} [{kf['id']}; after minimisation]")
+                if kf["id"] not in known_seen:
+                    known_seen[kf["id"]] = {"finding": kf, "count": g["count"], "example": fl["seed"]}
+                    lines.append(f"KNOWN-FINDING: property={prop} {kf['what']} [{kf['id']}; "
+                                 f"identified after minimising seed {fl['seed']}]")
                 continue
             path = write_replay(prop, vv, scen, res["digest"], fl["seed"], info)
             # replay in a brand-new zygote
